@@ -20,7 +20,7 @@ from ..schema import (
 from ..schema.scalars import MAX_INT, MIN_INT, SPECIFIED_SCALAR_TYPES
 
 
-_INT_RE = re.compile(r"^-?(0|[1-9][0-9]*)$")
+_INT_RE = re.compile(r"-?(0|[1-9][0-9]*)")
 
 
 def ast_node_from_value(value: Any, input_type: GraphQLType) -> _ast.Value:
@@ -131,13 +131,13 @@ def _scalar_node_from_value(
     if isinstance(scalar_value, str):
         if isinstance(input_type, EnumType):
             return _ast.EnumValue(value=scalar_value)
-        elif input_type is ID and _INT_RE.match(scalar_value):
+        elif input_type is ID and _INT_RE.fullmatch(scalar_value):
             return _ast.IntValue(value=scalar_value)
         elif (
             isinstance(input_type, ScalarType)
             and input_type not in SPECIFIED_SCALAR_TYPES
         ):
-            if _INT_RE.match(scalar_value):
+            if _INT_RE.fullmatch(scalar_value):
                 int_value = int(scalar_value)
                 if MIN_INT < int_value < MAX_INT:
                     return _ast.IntValue(value=scalar_value)
